@@ -223,17 +223,7 @@ def check_upper(case):
         s2.pv, s2.curves, s2.initial, s2.mix = pv2, None, None, twin
         m2, e2 = _traced(pv2, lambda: procs.run(case, s2, dt, cond_spec=dict(cond, x=1.0 - cond["x"])))
         def borderline(model):
-            """The look-ahead state after the last reported step sits on the validity boundary to rounding (legitimate flip)."""
-            if min(float(t_) for t_ in model.feed_temperature) < 150.0:
-                return True  # run-away self-cooling: vapour pressures underflow, which twin trips a validator first is rounding
-            for k in range(len(model.feed_mass)):  # the twin may have raised at any step
-                mk, wk = float(model.feed_mass[k]), model.feed_compositions[k].p
-                d1 = float(model.partial_fluxes[k][0]) * cond["area"] * dt
-                d2 = float(model.partial_fluxes[k][1]) * cond["area"] * dt
-                rem = (mk * wk - d1, mk * (1 - wk) - d2, mk - d1 - d2)
-                if any(abs(r) <= 1e-9 * float(model.feed_mass[0]) for r in rem):
-                    return True
-            return False
+            return procs.lookahead_borderline(model, cond["area"], dt)
 
         returned = m2 if is_raised(m) else m
         if is_raised(m) != is_raised(m2) and len(e1) == len(e2) and e1[:max(len(e1) - 1, 0)] == e2[:max(len(e2) - 1, 0)] \
